@@ -457,6 +457,7 @@ func c04Run(env *fw.Env, raw json.RawMessage) fw.Outcome {
 	prevLen := -1
 	tooTall := false
 	prevBuf := ""
+	var prevPrompt []string // the prompt shown with the frame before (it may change during the call)
 	for i := range res.Waits {
 		sn := &res.Waits[i]
 		if sn.Kind != "main" || sn.Local == "isearch" {
@@ -464,6 +465,7 @@ func c04Run(env *fw.Env, raw json.RawMessage) fw.Outcome {
 		}
 		lastBuf := prevBuf
 		prevBuf = sn.Line
+		lastPrompt := prevPrompt
 		// the library's own status line ("Recording macro: ...") is shown under the input from
 		// the key that starts a keyboard macro on; the API does not expose it
 		recording := false
@@ -487,6 +489,10 @@ func c04Run(env *fw.Env, raw json.RawMessage) fw.Outcome {
 				*last = "@@" + *last
 			}
 			o.Add("frames_with_a_prompt_that_changes_width_during_the_call", 1)
+		}
+		prevPrompt = promptLines
+		if lastPrompt == nil {
+			lastPrompt = promptLines
 		}
 		if len(o.O.Findings) > 0 {
 			// the screen state of this call is already wrong: later frames would only repeat it
@@ -566,7 +572,7 @@ func c04Run(env *fw.Env, raw json.RawMessage) fw.Outcome {
 		}
 		// the cause class of a frame considers the frame before it too: what is painted (and
 		// where the library believes the cursor is) depends on the transition
-		causes := c04Primary(append(c04Causes(promptLines, []rune(sn.Line), c.W), c04Causes(promptLines, []rune(lastBuf), c.W)...))
+		causes := c04Primary(append(c04Causes(promptLines, []rune(sn.Line), c.W), c04Causes(lastPrompt, []rune(lastBuf), c.W)...))
 		if !ok {
 			sig := fmt.Sprintf("frame-wrong|%s", causes)
 			o.Viol(sig, ctx+fmt.Sprintf(" wait=%d buffer=%q pos=%d cmd=%s: %s: %s\nxterm-model screen=%q\nvte-model screen=%q", sn.Idx, sn.Line, sn.Pos, sn.Cmd, v.Why, v.Detail, gridText(sn.Grid[0], 12), gridText(sn.Grid[1], 12)))
